@@ -686,7 +686,7 @@ static void run_cfail(char *line)
 	char *cmd = strtok_r(line, " \n", &save), *a = strtok_r(NULL, " \n", &save), *b = strtok_r(NULL, " \n", &save),
 	     *c = strtok_r(NULL, " \n", &save);
 	unsigned long long x;
-	int dl = 0, alive = 0, i, mtx = 0;
+	int dl = 0, alive = 0, i, mtx = 0, with_spur, nspur = 0;
 	(void)cmd;
 	if (!a || !b || !c || !is_num(a) || !is_num(b) || !is_num(c) || atoi(a) < 1 || atoi(a) > MAXW) {
 		puts("bad-op");
@@ -697,6 +697,7 @@ static void run_cfail(char *line)
 	cf_null = -1;
 	g_n = cf_n;
 	x = strtoull(c, NULL, 10) * 2862933555777941757ULL + 3037000493ULL;
+	with_spur = strtoull(c, NULL, 10) % 4 == 1;
 	vs_reset();
 	vs_spawn(cfail_thread, NULL);
 	for (;;) {
@@ -714,11 +715,23 @@ static void run_cfail(char *line)
 			break;
 		}
 		x = x * 6364136223846793005ULL + 1442695040888963407ULL;
+		if (with_spur && (x >> 33) % 100 < 15) {
+			int cand[64], m = 0;
+			for (i = 0; i < nt && i < 64; ++i)
+				if (vs_kind(i) == VS_COND && !vs_signalled(i))
+					cand[m++] = i;
+			x = x * 6364136223846793005ULL + 1442695040888963407ULL;
+			if (m > 0 && vs_step(cand[(x >> 33) % (unsigned)m], 1) == 0) {
+				++nspur;
+				continue;
+			}
+		}
+		x = x * 6364136223846793005ULL + 1442695040888963407ULL;
 		vs_step(en[(x >> 33) % (unsigned)n], 0);
 	}
 	for (i = 0; i < vs_nthreads(); ++i)
 		alive += vs_kind(i) != VS_EXITED;
-	printf("null=%d dl=%d alive=%d threads=%d mtx=%d\n", cf_null, dl, alive, vs_nthreads(), mtx);
+	printf("null=%d dl=%d alive=%d threads=%d spur=%d mtx=%d\n", cf_null, dl, alive, vs_nthreads(), nspur, mtx);
 	vs_kill_all();
 }
 
